@@ -13,5 +13,8 @@ for spec in "1 seqcheck" "3 schedcheck"; do
   [ -d /verif/harness/cmd/$2 ] || continue
   /verif/bin/instr -out "$SCR/ov$1" -level $1 || exit 1
   (cd /verif/harness && go build -overlay "$SCR/ov$1/overlay.json" -o "$SCR/$2" ./cmd/$2) || exit 1
+  if [ "$1" = 1 ]; then
+    (cd /verif/harness && go build -overlay "$SCR/ov1/overlay.json" -o "$SCR/crolt-driver" github.com/Comcast/rulio/crolt) || exit 1
+  fi
 done
 echo "setup ok"
